@@ -297,7 +297,7 @@ func Sym_Rows_Next(rs *sql.Rows) bool {
 		return false
 	}
 	r.pos++
-	if r.set.BreakAfter > 0 && r.pos >= r.set.BreakAfter {
+	if r.set.BreakAfter < 0 || (r.set.BreakAfter > 0 && r.pos >= r.set.BreakAfter) {
 		r.err = errRowsBroken
 		Sym_Rows_Close(rs)
 		return false
